@@ -39,7 +39,10 @@ func (n Notification) FastLog(l *fastlog.Line) *fastlog.Line {
 
 func toNotification(host *Host) Notification {
 	// send the MACEntry name as there can be many IPv6 hosts, some with name entries not populated yet
-	return Notification{Addr: host.Addr, Online: host.Online, Manufacturer: host.MACEntry.Manufacturer,
+	// the notification leaves the session: it gets its own copy of the MAC, not the table's slice
+	addr := host.Addr
+	addr.MAC = CopyMAC(addr.MAC)
+	return Notification{Addr: addr, Online: host.Online, Manufacturer: host.MACEntry.Manufacturer,
 		DHCP4Name: host.MACEntry.DHCP4Name, MDNSName: host.MACEntry.MDNSName, SSDPName: host.MACEntry.SSDPName,
 		LLMNRName: host.LLMNRName, NBNSName: host.MACEntry.NBNSName,
 		IsRouter: host.MACEntry.IsRouter}
